@@ -38,6 +38,43 @@ pub fn handle(op: &str, req: &Value) -> Option<Value> {
             if a.0.is_nan() && a.0.is_sign_positive() && !b.0.is_nan() && ab != -1 { bad = true; }
             json!({"ab": ab, "ba": ba, "bc": bc, "ac": ac, "aa": aa, "violates": bad})
         },
+        "tcp_frame" => {
+            use tensor_chain::network::Message;
+            use tensor_chain::tcp::{CompressionConfig, LengthDelimitedCodec};
+            let msg = Message::Ping { term: 0x0102_0304_0506_0708 };
+            let probe = LengthDelimitedCodec::new(1 << 20).encode(&msg).map(|f| f.len() - 4).unwrap_or(0);
+            let l = req["payload_len"].as_u64().unwrap_or(0) as i128;
+            let m = req["max_frame_length"].as_u64().unwrap_or(0) as i128;
+            // keep the witness's distance between the limit and the payload length
+            let mreal = (probe as i128 + (m - l)).clamp(0, 1 << 40) as usize;
+            let compress = req["compress"].as_bool().unwrap_or(false);
+            let mut codec = LengthDelimitedCodec::with_compression(mreal, CompressionConfig::default());
+            codec.set_compression_enabled(compress);
+            let mut bad = false;
+            let mut detail = vec![];
+            match codec.encode(&msg) {
+                Ok(f) => {
+                    let n = u32::from_be_bytes([f[0], f[1], f[2], f[3]]) as usize;
+                    if n != f.len() - 4 || n > mreal { bad = true; }
+                    match codec.decode_payload(&f[4..]) { Ok(Message::Ping { term }) if term == 0x0102_0304_0506_0708 => {}, _ => bad = true }
+                    detail.push(format!("v1 ok len {n}"));
+                },
+                Err(_) => { if probe <= mreal { bad = true; } detail.push("v1 refused".into()); },
+            }
+            match codec.encode_v2(&msg) {
+                Ok(f) => {
+                    let n = u32::from_be_bytes([f[0], f[1], f[2], f[3]]) as usize;
+                    if n != f.len() - 4 || n > mreal || n == 0 { bad = true; }
+                    match codec.decode_payload_v2(&f[4..]) { Ok(Message::Ping { term }) if term == 0x0102_0304_0506_0708 => {}, Err(_) if probe > mreal => {}, _ => bad = true }
+                    detail.push(format!("v2 ok len {n}"));
+                },
+                Err(_) => { if !compress && probe + 1 <= mreal { bad = true; } detail.push("v2 refused".into()); },
+            }
+            if codec.decode_payload_v2(&[]).is_ok() { bad = true; }
+            let long = vec![0u8; mreal + 1];
+            if mreal < (1 << 20) && codec.decode_payload(&long).is_ok() { bad = true; }
+            json!({"max_frame_length": mreal, "payload": probe, "detail": detail, "violates": bad})
+        },
         "sparse_roundtrip" => {
             let dense: Vec<f32> = req["bits"].as_array().into_iter().flatten().map(|x| f32::from_bits(x.as_u64().unwrap_or(0) as u32)).collect();
             let sv = SparseVector::from_dense(&dense);
